@@ -356,6 +356,11 @@ def _interp_like(ctx, P):
         ("differs on both", [l("AX"), l("AY")], [c("AX"), c("AY")], [AX, AY]),
         ("same positions", [c("AX"), c("AY")], [Sym("t"), c("AX"), c("AY")], []),
         ("axis missing from `like`", [l("AX"), c("AY")], [c("AX")], [AX]),
+        # an axis the array lacks may come first, in the middle or last in the grid: the axes after it are still examined
+        ("array lacks the first axis (1-D vertical metric)", [c("AZ")], [c("AX"), c("AY"), l("AZ")], [AZ]),
+        ("array lacks the middle axis", [l("AX"), c("AZ")], [c("AX"), c("AY"), l("AZ")], [AX, AZ]),
+        ("array lacks the last axis", [l("AX"), c("AY")], [c("AX"), l("AY"), c("AZ")], [AX, AY]),
+        ("`like` lacks the first axis", [c("AX"), c("AY"), c("AZ")], [l("AY"), l("AZ")], [AY, AZ]),
     ]
     for name, adims, ldims, want in cases:
         calls.clear()
